@@ -150,6 +150,15 @@ def apply_env(env):
     import warnings
 
     warnings.simplefilter("error" if (env or {}).get("warnings") == "error" else "ignore")
+    npm = (env or {}).get("numpy")
+    if npm:
+        # process-wide numpy settings an embedding application may have changed: terse array printing, floating-point errors that raise
+        import numpy
+
+        if npm in ("terse", "both"):
+            numpy.set_printoptions(threshold=6, edgeitems=2, linewidth=40)
+        if npm in ("raise", "both"):
+            numpy.seterr(all="raise")
     mode = (env or {}).get("logging", "off")
     if mode == "off":
         logging.disable(logging.CRITICAL)
